@@ -217,3 +217,13 @@ def sample(r):
     return dict(kind=r['kind'], path=r['path'], chip_data=r['mode'],
                 words=[''.join(chr(c) for c in w) for w in r['words']],
                 chip=''.join(chr(c) for c in r['out']['chip']), lines=len(r['lines']))
+
+
+def corrupt(r):
+    if r['kind'] == 'sig':
+        r['out']['chip'] = r['out']['chip'] + [33]
+    elif r['kind'] == 'regdump':
+        r['lines'] = r['lines'] + [[120]]
+    else:
+        r['raised'] = True
+    return r
